@@ -365,14 +365,20 @@ func c02(c *Ctx) {
 	a1 := rOp{Kind: 0, CName: clients[0], CT: 1 * sec, SName: services[0]}
 	a2 := rOp{Kind: 0, CName: clients[0], CT: 1 * sec, SName: services[1]}
 	a3 := rOp{Kind: 0, CName: clients[1], CT: 291 * sec, SName: services[0]}
+	// a fresh authenticator of a client all of whose recorded authenticators have expired, presented twice while the
+	// clean-up runs: whatever the clean-up decides about that client it decides on what it sees under ONE lock
+	b1 := rOp{Kind: 0, CName: clients[0], CT: 311 * sec, SName: services[0]}
 	scenarios := [][]rOp{
-		{a1, a1}, {a1, a1, a1}, {a1, a1, {Kind: 1}}, {a1, a2, a1}, {a1, a3, a1}, {a1, a1, a2, {Kind: 1}},
+		{a1, a1}, {a1, a1, a1}, {a1, a1, {Kind: 1}}, {a1, a2, a1}, {a1, a3, a1}, {a1, a1, a2, {Kind: 1}}, {b1, b1, {Kind: 1}},
 	}
-	pres := [][]rOp{{}, {a3}, {a1}}
+	pres := [][]rOp{{}, {a3}, {a1}, {a1, {Kind: 2, DT: 310 * sec}}}
 	for si, sc := range scenarios {
 		for pi, pre := range pres {
 			if c.Quick() && (pi == 2 && si > 1 || si == 5 || si == 1 && pi == 1) {
 				continue
+			}
+			if (si == 6) != (pi == 3) && (c.Quick() || si == 6) {
+				continue // the expired-client pre-state belongs to the last scenario (all combinations in the thorough tier)
 			}
 			nSched := 0
 			ok := true
